@@ -121,6 +121,7 @@ func (c *Cluster) handle(req *Request) *Reply {
 					d.Hold = rep.HoldDefault
 					d.Delay += rep.Delay
 					d.AfterSend = rep.AfterSend
+					d.KillConn = d.KillConn || rep.KillConn // answer, then close the connection
 				}
 				return d
 			}
